@@ -71,7 +71,7 @@ def floors(tier):
     L = 5 if tier == "quick" else 7
     return {"words:checked": sum(6 ** k for k in range(0, L + 1)) - 1, "group:products": 576, "wrappers:compiles": 24 * 4 * 7,
             "nonclifford:rejected": 400, "group:entries": 24, "nonclifford:small_rotation": 100,
-            "wrappers:with_single_noise_object": 24 * 4 * 7, "wrappers:with_list_noise_object": 24 * 4 * 2,
+            "wrappers:with_single_noise_object": 24 * 4 * 7, "wrappers:with_list_noise_object": 24 * 4 * 2, "wrappers:with_unwrapped_in_dag_noise_object": 24 * 4 * 3,
             "wrappers:export_read_by_standard_reader": 24 * 2 * 7}
 
 
@@ -274,11 +274,16 @@ def check_wrapper(word, reg, backend, prep_i, ctx, noise_mode=None):
         noise.noise_parameters["After gate"] = bool(prep_i % 2)
         noise_sim = prep_i % 4 != 3          # a non-zero strength is only allowed with noise simulation switched off
         c.add(ops.OneQubitGateWrapper(classes, register=tq, reg_type=reg, noise=noise))
+    elif noise_mode == "unwrapped_in_dag":
+        c.add(ops.OneQubitGateWrapper(classes, register=tq, reg_type=reg))
     elif noise_mode == "list":
         c.add(ops.OneQubitGateWrapper(classes, register=tq, reg_type=reg, noise=[nm.NoNoise() if k % 2 else nm.PauliError("I") for k in range(len(classes))]))
         noise_sim = bool(prep_i % 2)
     else:
         c.add(ops.OneQubitGateWrapper(classes, register=tq, reg_type=reg))
+    if noise_mode == "unwrapped_in_dag":
+        # the other way a wrapper is expanded: inside the circuit (CircuitDAG.unwrap_nodes), before compiling
+        c.unwrap_nodes()
     U = mat_of(word)
     ref = dense.conj_apply(rho, U, [q], n)
     comp = m["DensityMatrixCompiler"]() if backend == "dm" else m["StabilizerCompiler"]()
@@ -328,9 +333,11 @@ def run_wrappers(spec, ctx):
             check_wrapper(list(w), spec["reg"], spec["backend"], p, ctx, noise_mode="single")
             if p < 2:
                 check_wrapper(list(w), spec["reg"], spec["backend"], p, ctx, noise_mode="list")
+            if p in (1, 3, 5):
+                check_wrapper(list(w), spec["reg"], spec["backend"], p, ctx, noise_mode="unwrapped_in_dag")
     rng = np.random.default_rng([spec["seed"], 22, sum(map(ord, spec["reg"] + spec["backend"]))])
     alpha = ALPHA + ["PhaseDagger"]
     for _ in range(spec["extra"]):
         L = int(rng.integers(1, 7))
         w = [alpha[int(rng.integers(len(alpha)))] for _ in range(L)]
-        check_wrapper(w, spec["reg"], spec["backend"], int(rng.integers(len(PREPS))), ctx)
+        check_wrapper(w, spec["reg"], spec["backend"], int(rng.integers(len(PREPS))), ctx, noise_mode=[None, "unwrapped_in_dag"][int(rng.integers(2))])
